@@ -665,7 +665,14 @@ func Equal(a, b Value) *bool {
 		}
 		return nil
 	case *BuiltinV:
-		if x.Name == b.(*BuiltinV).Name {
+		// the two names of the input built-in denote one function
+		canon := func(n string) string {
+			if n == BiInputLatin {
+				return BiInput
+			}
+			return n
+		}
+		if canon(x.Name) == canon(b.(*BuiltinV).Name) {
 			return &t
 		}
 		return &f
